@@ -18,17 +18,175 @@ Notation step := (step T attrs op_sem supported).
 Notation value := (value T attrs op_sem).
 Notation run_model := (run_model T attrs shape_of op_sem supported).
 
+(* ---------- helper lemmas ---------- *)
+Lemma gather_spec (e : env) names l :
+  gather T e names = XOk l ->
+  sequence (map (fun i => if String.eqb i "" then Some None else e i) names) = Some l.
+Proof.
+  revert l. induction names as [|n r IH]; cbn; intros l H.
+  - now inversion H.
+  - destruct (String.eqb n "") eqn:En.
+    + destruct (gather T e r) as [l'|k|] eqn:G; cbn in H; inversion H; subst.
+      now rewrite (IH _ eq_refl).
+    + destruct (e n) as [t|]; [|discriminate].
+      destruct (gather T e r) as [l'|k|] eqn:G; cbn in H; inversion H; subst.
+      cbn. now rewrite (IH _ eq_refl).
+Qed.
+
+(* the LAST occurrence of a name among the output names wins; no NoDup hypothesis *)
+Lemma bindout_last (e : env) names outs x :
+  List.length names = List.length outs ->
+  bindout T e names outs x =
+  match last_index_of x names with Some j => nth_error outs j | None => e x end.
+Proof.
+  revert e outs. induction names as [|n ns IH]; intros e outs L; cbn in *.
+  - reflexivity.
+  - destruct outs as [|t ts]; [discriminate|]. cbn in L.
+    rewrite IH by lia.
+    destruct (last_index_of x ns) as [j|] eqn:I; [reflexivity|].
+    unfold upd. destruct (String.eqb x n) eqn:E; reflexivity.
+Qed.
+
+Lemma run_nodes_app (e : env) a b :
+  run_nodes e (a ++ b)%list = xbind (run_nodes e a) (fun e' => run_nodes e' b).
+Proof.
+  revert e. induction a as [|m r IH]; intros e; cbn; [reflexivity|].
+  destruct (step e m) as [e'|k|]; cbn; auto.
+Qed.
+
+Lemma step_ok_inv (e e' : env) n :
+  step e n = XOk e' ->
+  exists ins outs, supported (n_op n) = true /\ gather T e (n_in n) = XOk ins /\
+    op_sem (n_op n) (n_attrs n) ins = XOk outs /\
+    List.length (n_out n) = List.length outs /\ e' = bindout T e (n_out n) outs.
+Proof.
+  unfold Run.step. intros H.
+  destruct (supported (n_op n)) eqn:S; [|discriminate].
+  destruct (gather T e (n_in n)) as [ins|k|] eqn:G; cbn in H; try discriminate.
+  destruct (op_sem (n_op n) (n_attrs n) ins) as [outs|k|] eqn:O; cbn in H; try discriminate.
+  destruct (Nat.eqb (List.length (n_out n)) (List.length outs)) eqn:L; [|discriminate].
+  apply Nat.eqb_eq in L. inversion H; subst. exists ins, outs. auto.
+Qed.
+
+Lemma value_ext (ns : list node) (e0 e0' : env) :
+  (forall y, e0 y = e0' y) -> forall x, value ns e0 x = value ns e0' x.
+Proof.
+  intros HE. induction ns as [|n r IH]; intros x; cbn; [apply HE|].
+  destruct (last_index_of x (n_out n)) as [j|]; [|apply IH].
+  assert (Hmap : map (fun i => if String.eqb i "" then Some None else value r e0 i) (n_in n)
+               = map (fun i => if String.eqb i "" then Some None else value r e0' i) (n_in n)).
+  { apply map_ext. intros i. now rewrite IH. }
+  now rewrite Hmap.
+Qed.
+
 (* TARGET 1: the environment after the node loop holds, under every name, the demand-driven value.
    No topological-order, SSA or distinct-output-names hypothesis. *)
 Theorem run_nodes_value (ns : list node) (e0 e : env) :
   run_nodes e0 ns = XOk e -> forall x, e x = value (rev ns) e0 x.
 Proof.
-Abort.
+  revert e0 e. induction ns as [|n ns' IH] using rev_ind; intros e0 e H x.
+  - cbn in *. now inversion H.
+  - rewrite rev_app_distr. cbn [rev app RunSpec.value].
+    rewrite run_nodes_app in H.
+    destruct (run_nodes e0 ns') as [e1|k|] eqn:H1; cbn in H; try discriminate.
+    destruct (step e1 n) as [e2|k|] eqn:H2; cbn in H; try discriminate.
+    inversion H; subst e2. clear H.
+    pose proof (IH e0 e1 H1) as IH1.
+    apply step_ok_inv in H2 as (ins & outs & S & G & O & L & ->).
+    apply gather_spec in G.
+    assert (Hmap : map (fun i => if String.eqb i "" then Some None else value (rev ns') e0 i) (n_in n)
+                 = map (fun i => if String.eqb i "" then Some None else e1 i) (n_in n)).
+    { apply map_ext. intros i. now rewrite IH1. }
+    rewrite Hmap, G, O.
+    rewrite bindout_last by exact L.
+    destruct (last_index_of x (n_out n)) as [j|] eqn:I; [reflexivity|apply IH1].
+Qed.
 
 (* TARGET 2: the initial environment of the model is the one the property describes *)
 Theorem env0_spec (g : graph) feed n : env0 T attrs g feed n = spec_env0 T attrs g feed n.
 Proof.
-Abort.
+  unfold env0, spec_env0, is_param.
+  destruct (lookup_last feed n) as [t|] eqn:F;
+  destruct (lookup_last (g_params g) n) as [w|] eqn:Pm;
+  destruct (has_input T attrs g n) eqn:HI; cbn; reflexivity.
+Qed.
+
+Lemma collect_ok (e : env) outs out :
+  collect T e outs = XOk out ->
+  map fst out = outs /\ forall o t, In (o, t) out -> e o = Some (Some t).
+Proof.
+  revert out. induction outs as [|o r IH]; cbn; intros out H.
+  - inversion H; subst. split; [reflexivity|]. intros o t [].
+  - destruct (e o) as [[t|]|] eqn:E; try discriminate.
+    destruct (collect T e r) as [l|k|] eqn:C; cbn in H; try discriminate.
+    inversion H; subst. destruct (IH _ eq_refl) as [IH1 IH2].
+    split; [cbn; now rewrite IH1|].
+    intros o' t' [HIn|HIn]; [inversion HIn; subst; exact E|now apply IH2].
+Qed.
+
+Lemma collect_err (e : env) outs k :
+  collect T e outs = XErr k ->
+  k = RModel /\ exists o, In o outs /\ (e o = None \/ e o = Some None).
+Proof.
+  induction outs as [|o r IH]; cbn; intros H; [discriminate|].
+  destruct (e o) as [[t|]|] eqn:E.
+  - destruct (collect T e r) as [l|k'|] eqn:C; cbn in H; try discriminate.
+    inversion H; subst. destruct (IH eq_refl) as [-> (o' & HIn & Ho')].
+    split; [reflexivity|]. exists o'. split; [now right|exact Ho'].
+  - inversion H; subst. split; [reflexivity|]. exists o. split; [now left|now right].
+  - inversion H; subst. split; [reflexivity|]. exists o. split; [now left|now left].
+Qed.
+
+Lemma collect_no_panic (e : env) outs : collect T e outs <> XPanic.
+Proof.
+  induction outs as [|o r IH]; cbn; [discriminate|].
+  destruct (e o) as [[t|]|]; try discriminate.
+  destruct (collect T e r) as [l|k|]; cbn; try discriminate. congruence.
+Qed.
+
+Lemma gather_no_panic (e : env) names : gather T e names <> XPanic.
+Proof.
+  induction names as [|n r IH]; cbn; [discriminate|].
+  destruct (String.eqb n "").
+  - destruct (gather T e r) as [l|k|]; cbn; try discriminate. congruence.
+  - destruct (e n) as [t|]; [|discriminate].
+    destruct (gather T e r) as [l|k|]; cbn; try discriminate. congruence.
+Qed.
+
+Lemma step_no_panic (e : env) n :
+  (forall o a i, op_sem o a i <> XPanic) -> step e n <> XPanic.
+Proof.
+  intros HP. unfold Run.step.
+  destruct (supported (n_op n)); [|discriminate].
+  destruct (gather T e (n_in n)) as [ins|k|] eqn:G; cbn; try discriminate.
+  - destruct (op_sem (n_op n) (n_attrs n) ins) as [outs|k|] eqn:O; cbn; try discriminate.
+    + destruct (Nat.eqb (List.length (n_out n)) (List.length outs)); discriminate.
+    + exfalso. exact (HP _ _ _ O).
+  - exfalso. exact (gather_no_panic _ _ G).
+Qed.
+
+Lemma run_nodes_no_panic (e : env) ns :
+  (forall o a i, op_sem o a i <> XPanic) -> run_nodes e ns <> XPanic.
+Proof.
+  intros HP. revert e. induction ns as [|n r IH]; intros e; cbn; [discriminate|].
+  destruct (step e n) as [e'|k|] eqn:S; cbn; try discriminate.
+  - apply IH.
+  - exfalso. exact (step_no_panic _ _ HP S).
+Qed.
+
+Lemma run_nodes_err (e0 : env) ns k :
+  run_nodes e0 ns = XErr k ->
+  exists pre n post, ns = (pre ++ n :: post)%list /\
+    exists e, run_nodes e0 pre = XOk e /\ step e n = XErr k.
+Proof.
+  revert e0. induction ns as [|m r IH]; intros e0 H; cbn in H; [discriminate|].
+  destruct (step e0 m) as [e'|k'|] eqn:S; cbn in H; try discriminate.
+  - destruct (IH _ H) as (pre & n & post & -> & e & H1 & H2).
+    exists (m :: pre), n, post. split; [reflexivity|].
+    exists e. split; [|exact H2]. cbn. rewrite S. cbn. exact H1.
+  - inversion H; subst. exists [], m, r. split; [reflexivity|].
+    exists e0. split; [reflexivity|exact S].
+Qed.
 
 (* TARGET 3: a successful Run returns exactly the declared outputs, in order, each the (non-nil)
    demand-driven value of its name *)
@@ -38,7 +196,16 @@ Theorem run_model_ok (g : graph) feed out :
   map fst out = g_outputs g /\
   forall o t, In (o, t) out -> value (rev (g_nodes g)) (spec_env0 T attrs g feed) o = Some (Some t).
 Proof.
-Abort.
+  unfold Run.run_model. intros H.
+  destruct (validate_shapes T attrs shape_of g feed) eqn:V; cbn in H; [|discriminate].
+  split; [reflexivity|].
+  destruct (run_nodes (env0 T attrs g feed) (g_nodes g)) as [e|k|] eqn:R; cbn in H; try discriminate.
+  destruct (collect_ok _ _ _ H) as [H1 H2].
+  split; [exact H1|].
+  intros o t HIn. apply H2 in HIn.
+  rewrite <- HIn. rewrite (run_nodes_value _ _ _ R o).
+  apply value_ext. intros y. symmetry. apply env0_spec.
+Qed.
 
 (* TARGET 4: Run fails exactly when validation fails, or a node fails, or a declared output is
    not bound to a tensor; the error of the first failing node is the one reported *)
@@ -52,7 +219,18 @@ Theorem run_model_err (g : graph) feed k :
    exists e, run_nodes (env0 T attrs g feed) (g_nodes g) = XOk e /\
      exists o, In o (g_outputs g) /\ (e o = None \/ e o = Some None)).
 Proof.
-Abort.
+  unfold Run.run_model. intros H.
+  destruct (validate_shapes T attrs shape_of g feed) eqn:V; cbn in H.
+  - right.
+    destruct (run_nodes (env0 T attrs g feed) (g_nodes g)) as [e|k'|] eqn:R; cbn in H; try discriminate.
+    + right. destruct (collect_err _ _ _ H) as [-> (o & HIn & Ho)].
+      split; [reflexivity|]. split; [reflexivity|].
+      exists e. split; [reflexivity|]. exists o. auto.
+    + left. inversion H; subst k'. split; [reflexivity|].
+      destruct (run_nodes_err _ _ _ R) as (pre & n & post & E & e & H1 & H2).
+      exists pre, n, post. split; [exact E|]. exists e. auto.
+  - left. inversion H; subst. auto.
+Qed.
 
 (* TARGET 5: a node of an unregistered operator type makes Run fail with the unsupported-operator
    error if every earlier node succeeds; and no graph containing such a node can succeed *)
@@ -62,23 +240,113 @@ Theorem unsupported_op_refused (g : graph) feed pre n post :
   (forall e, validate_shapes T attrs shape_of g feed = true ->
              run_nodes (env0 T attrs g feed) pre = XOk e -> run_model g feed = XErr RUnsupportedOp).
 Proof.
-Abort.
+  intros E S.
+  assert (St : forall e, step e n = XErr RUnsupportedOp).
+  { intros e. unfold Run.step. now rewrite S. }
+  split.
+  - intros out H. unfold Run.run_model in H.
+    destruct (validate_shapes T attrs shape_of g feed) eqn:V; cbn in H; [|discriminate].
+    rewrite E, run_nodes_app in H.
+    destruct (run_nodes (env0 T attrs g feed) pre) as [e|k|] eqn:R; cbn in H; try discriminate.
+    rewrite St in H. cbn in H. discriminate.
+  - intros e V R. unfold Run.run_model. rewrite V. cbn.
+    rewrite E, run_nodes_app, R. cbn. rewrite St. reflexivity.
+Qed.
 
 (* TARGET 6: Run never panics unless an operator does *)
 Theorem run_model_no_panic (g : graph) feed :
   (forall o a i, op_sem o a i <> XPanic) -> run_model g feed <> XPanic.
 Proof.
-Abort.
+  intros HP. unfold Run.run_model.
+  destruct (validate_shapes T attrs shape_of g feed) eqn:V; cbn; [|discriminate].
+  destruct (run_nodes (env0 T attrs g feed) (g_nodes g)) as [e|k|] eqn:R; cbn.
+  - apply collect_no_panic.
+  - discriminate.
+  - exfalso. exact (run_nodes_no_panic _ _ HP R).
+Qed.
 
 (* TARGET 7: positional binding: renaming the names of a graph consistently (an injective
    renaming that fixes "") leaves all values unchanged *)
 Definition rename_node (f : string -> string) (n : node) : node :=
   {| n_op := n_op n; n_attrs := n_attrs n; n_in := map f (n_in n); n_out := map f (n_out n) |}.
+Lemma last_index_of_map (f : string -> string) x l :
+  (forall a b, f a = f b -> a = b) ->
+  last_index_of (f x) (map f l) = last_index_of x l.
+Proof.
+  intros Hinj. induction l as [|y r IH]; cbn; [reflexivity|].
+  rewrite IH. destruct (last_index_of x r) as [j|]; [reflexivity|].
+  destruct (String.eqb x y) eqn:E.
+  - apply String.eqb_eq in E. subst. now rewrite String.eqb_refl.
+  - destruct (String.eqb (f x) (f y)) eqn:E'; [|reflexivity].
+    apply String.eqb_eq in E'. apply Hinj in E'. subst. rewrite String.eqb_refl in E. discriminate.
+Qed.
+
+Lemma eqb_empty_map (f : string -> string) i :
+  (forall a b, f a = f b -> a = b) -> f "" = "" ->
+  String.eqb (f i) "" = String.eqb i "".
+Proof.
+  intros Hinj Hemp. destruct (String.eqb i "") eqn:E.
+  - apply String.eqb_eq in E. subst. rewrite Hemp. apply String.eqb_refl.
+  - apply String.eqb_neq. intros C. rewrite <- Hemp in C. apply Hinj in C.
+    subst. rewrite String.eqb_refl in E. discriminate.
+Qed.
+
+(* the clean form: any initial environment that agrees, through f, on the names that can be
+   demanded (x and the names of the graph) *)
+Lemma value_rename_gen (f : string -> string) (ns : list node) (e0 e0' : env) :
+  (forall a b, f a = f b -> a = b) -> f "" = "" ->
+  forall x,
+  (forall y, In y (x :: flat_map (fun n => (n_in n ++ n_out n)%list) ns) -> e0' (f y) = e0 y) ->
+  value (map (rename_node f) ns) e0' (f x) = value ns e0 x.
+Proof.
+  intros Hinj Hemp. induction ns as [|n r IH]; intros x HE; cbn [map RunSpec.value].
+  - apply HE. now left.
+  - cbn [rename_node n_out n_in n_op n_attrs].
+    rewrite last_index_of_map by exact Hinj.
+    destruct (last_index_of x (n_out n)) as [j|] eqn:I.
+    + rewrite map_map.
+      assert (Hmap : map (fun i => if String.eqb (f i) "" then Some None
+                                   else value (map (rename_node f) r) e0' (f i)) (n_in n)
+                   = map (fun i => if String.eqb i "" then Some None else value r e0 i) (n_in n)).
+      { apply map_ext_in. intros i Hi. rewrite eqb_empty_map by assumption.
+        destruct (String.eqb i ""); [reflexivity|].
+        apply IH. intros y [Hy|Hy].
+        - subst y. apply HE. right. cbn. apply in_or_app. left. apply in_or_app. now left.
+        - apply HE. right. cbn. apply in_or_app. now right. }
+      rewrite Hmap. reflexivity.
+    + apply IH. intros y [Hy|Hy].
+      * subst y. apply HE. now left.
+      * apply HE. right. cbn. apply in_or_app. now right.
+Qed.
+
+(* corollary: the initial environment renamed pointwise *)
+Corollary value_rename_env (f : string -> string) (ns : list node) (e0 e0' : env) x :
+  (forall a b, f a = f b -> a = b) -> f "" = "" ->
+  (forall y, e0' (f y) = e0 y) ->
+  value (map (rename_node f) ns) e0' (f x) = value ns e0 x.
+Proof. intros Hinj Hemp HE. apply value_rename_gen; auto. Qed.
+
 Theorem value_rename (f : string -> string) (ns : list node) (e0 : env) x :
   (forall a b, f a = f b -> a = b) -> f "" = "" ->
   value (map (rename_node f) ns) (fun y => match find (fun z => String.eqb (f z) y) (x :: flat_map (fun n => (n_in n ++ n_out n)%list) ns) with
                                             | Some z => e0 z | None => None end) (f x)
   = value ns e0 x.
 Proof.
-Abort.
+  intros Hinj Hemp.
+  apply value_rename_gen; [exact Hinj|exact Hemp|].
+  intros y HIn.
+  set (L := (x :: flat_map (fun n => (n_in n ++ n_out n)%list) ns)) in *.
+  destruct (find (fun z => String.eqb (f z) (f y)) L) as [z|] eqn:F.
+  - apply find_some in F as [_ F]. apply String.eqb_eq in F. apply Hinj in F. now subst.
+  - exfalso. pose proof (find_none _ _ F y HIn) as F'. cbn in F'.
+    rewrite String.eqb_refl in F'. discriminate.
+Qed.
 End P.
+
+Print Assumptions run_nodes_value.
+Print Assumptions env0_spec.
+Print Assumptions run_model_ok.
+Print Assumptions run_model_err.
+Print Assumptions unsupported_op_refused.
+Print Assumptions run_model_no_panic.
+Print Assumptions value_rename.
